@@ -18,6 +18,11 @@
 (*   replicate  every frame k times (tiling)                       } changed, *)
 (*   swap       SwapSides                                          } the MI   *)
 (*   split      SplitIntoTrajectories(cuts): same data, several    } must not *)
+(*   pooled     e.parts trajectories, each the data tiled e.k times: the pooled    *)
+(*              counts are e.parts * e.k times the counts of the data, so the      *)
+(*              mutual information is that of the data (InvariantUnderReplication  *)
+(*              + PooledEqualsConcatenated composed; the data are not materialised *)
+(*              in the specification, which is what lets k * parts * T exceed 10^6)*)
 (*              trajectories, pooled counts                        } (or: ^T) *)
 (*   normalise  channel_capacity_normalization(last, n_x, n_y) (directly, via *)
 (*              mi_matrix(normalize=True) or weighted_mi(normalize=True))     *)
@@ -284,6 +289,7 @@ ClausesOf(e) ==
     [] e.ev = "reorder"   -> {<<"BadTrace", ReorderOK(e)>>} \cup Invariant("InvariantUnderReorder", e)
     [] e.ev = "replicate" -> {<<"BadTrace", ReplicateOK(e)>>} \cup Invariant("InvariantUnderReplication", e)
     [] e.ev = "split"     -> {<<"BadTrace", SplitOK(e)>>} \cup Invariant("PooledEqualsConcatenated", e)
+    [] e.ev = "pooled"    -> {<<"BadTrace", e.k >= 1 /\ e.parts >= 1>>} \cup Invariant("PooledReplicasEqualOne", e)
     [] e.ev = "swap"      -> {<<"BadTrace", SwapOK(e)>>, <<"NonNegative", Sane(e.mi6) /\ NonNeg(e.mi6)>>,
                               <<"SwapTransposes", Close(e.mi6, Transpose(last), Fy, Fx, 2)>>}
     [] e.ev = "normalise" -> NormaliseClauses(e)
